@@ -273,7 +273,9 @@ class AnalogSimParams:
 
         self.elapsed_time = elapsed_time
         self.dt = dt
-        self.times = np.arange(0, elapsed_time + dt, dt)
+        # np.arange(0, elapsed_time + dt, dt) gains a spurious extra point when (elapsed_time + dt) / dt rounds up
+        num_steps = int(np.round(elapsed_time / dt))
+        self.times = np.linspace(0, num_steps * dt, num_steps + 1)
         self.sample_timesteps = sample_timesteps
         self.num_traj = num_traj
         self.max_bond_dim = max_bond_dim
